@@ -122,8 +122,9 @@ static void out_gt(const gt_t p) {
 /* a call that returns normally must leave the handler chain as it found it: a chain left pointing into
  * the returned frame makes the next reported error read dead stack storage */
 static int chain_bad;
+static int bare_mode;
 #define W(stmt) do { sts_t *_chain = core_get()->last; WIN_ON(); stmt; WIN_OFF(); \
-	if (core_get()->last != _chain) { chain_bad = 1; core_get()->last = _chain; } } while (0)
+	if (!bare_mode && core_get()->last != _chain) { chain_bad = 1; core_get()->last = _chain; } } while (0)
 
 /*============================================================================*/
 /* Input construction                                                         */
@@ -251,6 +252,53 @@ OP(bn_grow_add_dig) { full_capacity(R[1], 1); W(bn_add_dig(R[0], R[1], 1 + (B[6]
 OP(bn_grow_mul_dig) { full_capacity(R[1], (int)(B[6]->dp[0] & 1)); W(bn_mul_dig(R[0], R[1], 2 + (B[6]->dp[0] & 0xFF))); out_bn(R[0]); }
 OP(bn_grow_dbl) { full_capacity(R[1], (int)(B[6]->dp[0] & 1)); W(bn_dbl(R[0], R[1])); out_bn(R[0]); }
 OP(bn_grow_sub_neg) { full_capacity(R[1], 1); full_capacity(R[2], 0); bn_neg(R[2], R[2]); W(bn_sub(R[0], R[1], R[2])); out_bn(R[0]); }
+/* arguments that address digits at and beyond the capacity of the object: bit positions, bit lengths, byte lengths.
+ * The destination is an integer object in a heap block of exactly its size (with static allocation the digit
+ * array is part of the object), so that one digit too many is visible to the sanitizer. */
+#if ALLOC == AUTO
+#define HEAP_BN(h) bn_st *h = (bn_st *)sim_sys_malloc(sizeof(bn_st)); bn_make(h, RLC_BN_SIZE)
+#define HEAP_BN_FREE(h) sim_sys_free(h)
+#else
+#define HEAP_BN(h) bn_t h; bn_null(h); bn_new(h)
+#define HEAP_BN_FREE(h) bn_free(h)
+#endif
+OP(bn_cap_set_bit) {
+	static const long offs[8] = { -65, -1, 0, 1, 63, 64, 65, 700 };
+	long bit = (long)RLC_BN_SIZE * RLC_DIG + offs[B[6]->dp[0] % 8];
+	HEAP_BN(h);
+	bn_copy(h, B[0]);
+	W(bn_set_bit(h, (uint_t)bit, (int)((B[6]->dp[0] >> 8) & 1)));
+	out_int(bit); out_int(h->used <= h->alloc);
+	HEAP_BN_FREE(h);
+}
+OP(bn_cap_rand) {
+	static const long offs[8] = { -64, -1, 0, 1, 64, 65, 128, 900 };
+	long bits = (long)RLC_BN_SIZE * RLC_DIG + offs[B[6]->dp[0] % 8];
+	HEAP_BN(h);
+	W(bn_rand(h, RLC_POS, (size_t)bits));
+	out_int(bits); out_int(h->used <= h->alloc);
+	HEAP_BN_FREE(h);
+}
+OP(bn_cap_read_bin) {
+	static const long offs[8] = { -8, -1, 0, 1, 7, 8, 9, 300 };
+	long len = (long)RLC_BN_SIZE * (RLC_DIG / 8) + offs[B[6]->dp[0] % 8];
+	uint8_t *in = (uint8_t *)sim_sys_malloc((size_t)len);
+	HEAP_BN(h);
+	for (long i = 0; i < len; i++) in[i] = (uint8_t)(0x80 | (i * 37 + (long)B[6]->dp[0]));
+	W(bn_read_bin(h, in, (size_t)len));
+	out_int(len); out_int(h->used <= h->alloc);
+	HEAP_BN_FREE(h);
+	sim_sys_free(in);
+}
+OP(bn_cap_copy_lsh) {
+	/* a shift computed into a heap object: the result needs one digit more than there is */
+	long sh = (long)RLC_BN_SIZE * RLC_DIG - (long)bn_bits(B[0]) + (long)(B[6]->dp[0] % 130) - 64;
+	HEAP_BN(h);
+	if (sh < 0) sh = 0;
+	W(bn_lsh(h, B[0], (uint_t)sh));
+	out_int(sh); out_int(h->used <= h->alloc);
+	HEAP_BN_FREE(h);
+}
 /* in place: the operand itself must grow; whatever happens it must stay a usable integer */
 OP(bn_grow_lsh_inplace) {
 	bn_copy(R[1], B[0]);
@@ -959,7 +1007,7 @@ OP(ep_param_cycle) {
 static const op_t ops[] = {
 	E(bn_add, 0), E(bn_sub, 0), E(bn_mul_basic, 0), E(bn_mul_comba, 0), E(bn_mul_karat, 0), E(bn_sqr_basic, 0),
 	E(bn_sqr_comba, 0), E(bn_sqr_karat, 0), E(bn_lsh, 0), E(bn_grow_add, 0), E(bn_grow_add_dig, 0), E(bn_grow_mul_dig, 0),
-	E(bn_grow_dbl, 0), E(bn_grow_sub_neg, 0), E(bn_grow_lsh_inplace, 0), E(bn_grow_add_inplace, 0), E(bn_div_rem, 0), E(bn_div, 0), E(bn_mod_basic, 0),
+	E(bn_grow_dbl, 0), E(bn_grow_sub_neg, 0), E(bn_grow_lsh_inplace, 0), E(bn_grow_add_inplace, 0), E(bn_cap_set_bit, 0), E(bn_cap_rand, 0), E(bn_cap_read_bin, 0), E(bn_cap_copy_lsh, 0), E(bn_div_rem, 0), E(bn_div, 0), E(bn_mod_basic, 0),
 	E(bn_mod_barrt, 0), E(bn_mod_monty, 0), E(bn_mod_inv, 0), E(bn_mxp_basic, 0), E(bn_mxp_slide, 0),
 	E(bn_mxp_monty, 0), E(bn_mxp_dig, 0), E(bn_mxp_sim, 0), E(bn_srt, 0), E(bn_gcd_basic, 0), E(bn_gcd_lehme, 0),
 	E(bn_gcd_binar, 0), E(bn_gcd_ext_basic, 0), E(bn_gcd_ext_lehme, 0), E(bn_gcd_ext_binar, 0), E(bn_gcd_ext_mid, 0),
@@ -1114,10 +1162,15 @@ static void run_op(const op_t *op, const uint8_t *seed, size_t seed_len, uint64_
 	sim_scrub_stack(fill ^ 0x5555);
 	*thrown = 0;
 	chain_bad = 0;
-	RLC_TRY {
+	if (bare_mode) {
+		/* a caller without a protected block: errors are reported through the sticky code only */
 		op->run();
-	} RLC_CATCH_ANY {
-		*thrown = 1;
+	} else {
+		RLC_TRY {
+			op->run();
+		} RLC_CATCH_ANY {
+			*thrown = 1;
+		}
 	}
 	WIN_OFF();
 	sim_alloc.fail_at[0] = sim_alloc.fail_at[1] = 0;
@@ -1162,6 +1215,7 @@ static void engine_run(void) {
 		const char *sz = tok_kv(tok, n, "size");
 		snprintf(size_cls, sizeof(size_cls), "%s", sz ? sz : "norm");
 		cap_delta = tok_kv_long(tok, n, "cap", 0);
+		bare_mode = (int)tok_kv_long(tok, n, "bare", 0);
 		cnt = (int)(tok_kv_long(tok, n, "n", 3) % NMAX);
 		if (cnt < 0) cnt = 3;
 		const char *fl = tok_kv(tok, n, "fill");
